@@ -610,9 +610,10 @@ class Inliner:
                     refs.add(n.attr)
                 elif isinstance(n, ast.Constant) and isinstance(n.value, str):
                     refs.add(n.value)
+            inlined = {l.split()[-1].split(".")[-1] for l in self.log if l.startswith("inlined ")}
             for name, (fn, owner, static) in helpers.items():
-                if name in refs:
-                    continue
+                if name in refs or name not in inlined:
+                    continue          # never remove a definition that was not inlined: it may be reached by dynamic dispatch
                 if owner is None:
                     self.mod.body = [s for s in self.mod.body if s is not fn]
                 else:
